@@ -193,6 +193,32 @@ func checkC17(c *Ctx) {
 			})
 		}
 	}
+	// -zip: the tables are filled by init() (executed natively, injected); Parse must still not write
+	{
+		g := *SynCorpus[0]
+		g.Name = "G01zip"
+		g.Flags = []string{"-zip"}
+		t, err := c.parserTarget(&g, false, append(parserHarness, "genparser/c07.go", "genparser/c16.go", "genparser/dump.go")...)
+		if err == nil {
+			d, derr := c.nativeTables(t)
+			if derr != nil {
+				c.Inconclusive = append(c.Inconclusive, "G01 -zip: native table dump failed: "+derr.Error())
+			} else {
+				for n := 0; n <= 3; n++ {
+					jobs = append(jobs, Job{
+						Name:           fmt.Sprintf("parser-writes G01 -zip N=%d", n),
+						Target:         t,
+						Run:            SymRun{Harness: "VerifC17Parser", Params: map[string]int{"N": n}, LoopBound: 8*(n+1) + 16, ForkFuncs: []string{"Parse", "VerifC17Parser", "Error"}, InitExtra: []string{"strconv"}, SkipInitFuncs: func(p string) bool { return p == "gen/parser" }, Setup: injectTables(d)},
+						Bounds:         fmt.Sprintf("grammar G01 generated with -zip (tables built by init natively and injected): every sequence of %d tokens; every store checked", n),
+						RequiredCovers: []string{"end"},
+					})
+				}
+			}
+		} else {
+			c.Inconclusive = append(c.Inconclusive, err.Error())
+		}
+	}
+	c.BoundsText = append(c.BoundsText, "-zip: the generated init() functions are the only writers of actionTab/gotoTab (they are executed natively once, before any goroutine can use the package; Go runs package initialisation single-threaded); Parse on the injected tables performs no store to them")
 	c.BoundsText = append(c.BoundsText, "non-interference: every store executed by NewLexer/Scan/Reset on abstract tables and symbolic input must target an object allocated by the calling goroutine's own calls (obligation: path condition AND 'target existed before the calls' is unsat); with no writes to shared state all shared accesses are reads, hence no data race for any interleaving and sequential results per goroutine")
 	c.RunJobs(jobs, 4)
 }
